@@ -31,7 +31,7 @@ Definition json_of_children (ch : list (string * list bindings)) : json :=
 
 (** Canonical form of an observed result (sets are sorted the same way). *)
 Definition canon_obs (o : json) : json :=
-  let o := JObj (aremove "fired" (aremove "msg" (jO (jnorm o)))) in
+  let o := JObj (aremove "ttl_mismatch_d33" (aremove "ttl_mismatch_d42" (aremove "ttl_mismatch" (aremove "fired" (aremove "msg" (jO (jnorm o))))))) in
   let fix_list k (j : json) :=
     match jget k j with
     | Some (JArr l) =>
@@ -558,7 +558,15 @@ Definition step_acc (a : acc) (o : json) : acc :=
       | Some (sy', m, amb) =>
           (* judge reads against the index-free specification *)
           let '(spec_bad, kfs) :=
-            if loc_disabled sy0 (jfS "loc" o) t && negb amb && is_api_op (jfS "op" o)
+            if match jget "ttl_mismatch" obs with Some _ => true | None => false end
+            then (true, filter (fun k => String.eqb k "D7") (kf_of sy0 o))
+                 (* C17: the three cache TTLs gave different answers to the same request (D7: whether the index
+                    refuses an unsortable event depends on which keys its trie still has nodes for) *)
+            else if match jget "ttl_mismatch_d42" obs with Some _ => true | None => false end
+            then (true, ["D42"])
+            else if match jget "ttl_mismatch_d33" obs with Some _ => true | None => false end
+            then (true, ["D33"])
+            else if loc_disabled sy0 (jfS "loc" o) t && negb amb && is_api_op (jfS "op" o)
             then (jfB "ok" obs, if String.eqb (jfS "op" o) "size" then ["D36"] else [])
                  (* C10: in a disabled location every operation reports an error *)
             else if (String.eqb (jfS "op" o) "remfact" || String.eqb (jfS "op" o) "remrule") && negb amb && jfB "ok" m
@@ -624,7 +632,14 @@ Definition init_system (locs : list json) : system :=
 Definition check_loc (c : json) : json :=
   let sy := init_system (jfL "locs" c) in
   let a := fold_left step_acc (jfL "ops" c) (mkAcc [] sy 0 None None [] [] 0) in
-  let kf := dedup_str (a_kf a) in
+  let ghost_bad := match jget "ghost_ok" c with Some (JBool false) => true | _ => false end in
+  let multi_load := 1 <? jfZ "stress_loads" c in
+  let a := if ghost_bad then
+             mkAcc (a_reg a) (a_sys a) (a_k a) (a_diff a)
+                   (match a_spec a with Some x => Some x | None => Some (a_k a, "existence-check") end)
+                   (a_kf a) (a_feats a) (a_amb a)
+           else a in
+  let kf := dedup_str ((if multi_load then ["D41"] else []) ++ a_kf a)%list in
   JObj [("ok", JBool (match a_diff a with None => true | Some _ => false end));
         ("at", match a_diff a with Some (k, _, _) => JNum k | None => JNull end);
         ("why", JStr (match a_diff a with Some (_, w, _) => String.append "model and implementation differ at op " w | None => "" end));
